@@ -43,7 +43,7 @@ MANIFEST = {
                   'check-before-store ordering, dispatch-table totality on ParameterType, '
                   'handler exactness, provenance of the search space used by add_trial'
                   '; must-pass-through formulation of the factory validators; member-wise evaluation of the feasibility dispatch; one config object per subspace (loop-invariant argument of SearchSpace.add)'
-                  '; normaliser-only-reorders check; shallow-copy-then-mutate lint; cast-before-lookup dataflow on the children table; children-table truthiness lint'),
+                  '; normaliser-only-reorders check; shallow-copy-then-mutate lint; cast-before-lookup dataflow on the children table; children-table truthiness lint; finite-model interpretation of the bounds-membership function (closed interval)'),
     'level_text': (
         'Static: every path that builds a parameter definition passes the documented validators; '
         'membership tests are performed in the documented order with the documented accessors and '
@@ -92,6 +92,8 @@ def run(ctx) -> None:
   ctx.rule('R10', 'subspaces are looked up under the internal representation of the parent value (the representation they are stored under)', 2)
   ctx.rule('R9', 'a copy of a config / search space that is then modified in place is a deep copy (a shallow copy shares the '
            'children tables with the original)', 1)
+  ctx.rule('R13', 'numeric membership is the closed interval of the bounds: the raising bounds test, evaluated on a finite model '
+           '(bounds (2, 5); values 1, 2, 3, 5, 6), rejects exactly the values outside', 1)
   ctx.rule('R8', 'one ParameterConfig object per subspace: `.add(x)` inside a loop gets a new object per innermost iteration', 4)
   mod = ctx.index.need_module(PCMOD)
   pc = mod.classes.get('ParameterConfig')
@@ -109,6 +111,7 @@ def run(ctx) -> None:
   r9_deep_clones(ctx)
   r10_children_keys(ctx)
   r11_children_emptiness(ctx)
+  r13_bounds_membership(ctx, mod)
 
 
 # ----------------------------------------------------------------------- R8
@@ -310,6 +313,50 @@ def r1_factory(ctx, mod, pc) -> None:
   ctx.check(mixed, 'R1', 'mixed value kinds rejected', fi.node,
             'every path from "feasible values given" to the constructor passes one of the two normalisers (anything else raises)',
             'mixed numeric/string feasible values are accepted', construct='mixed', func=fi.qualname)
+
+
+def r13_bounds_membership(ctx, mod) -> None:
+  """Every small function that raises on a comparison of one of its parameters with both `<config>.bounds[0]` and
+  `<config>.bounds[1]` (directly or through a local bound to `.bounds`) is interpreted for bounds (2, 5) and the values
+  1, 2, 3, 5, 6: it must raise for 1 and 6 only (closed interval)."""
+  from vzstatic import pathcond
+  n = 0
+  fns = [(m.qualname, m.node) for ci in mod.classes.values() for m in ci.methods.values()] + \
+      [(f.qualname, f.node) for f in mod.functions.values()]
+  for qn, fn in fns:
+    if not any(isinstance(x, ast.Raise) for x in ast.walk(fn)) or any(isinstance(x, (ast.For, ast.While, ast.Try)) for x in ast.walk(fn)):
+      continue
+    roots = set()
+    for c in (x for x in ast.walk(fn) if isinstance(x, (ast.Compare, ast.BoolOp))):
+      idx = {}
+      for x in ast.walk(c):
+        if isinstance(x, ast.Subscript) and isinstance(x.slice, ast.Constant) and x.slice.value in (0, 1):
+          b = flow.resolve_local(fn, x.value)
+          if isinstance(b, ast.Attribute) and b.attr in ('bounds', '_bounds') and dotted(b):
+            idx.setdefault(dotted(b), set()).add(x.slice.value)
+      roots |= {k for k, v in idx.items() if v == {0, 1}}
+    if len(roots) != 1:
+      continue
+    bkey = next(iter(roots))
+    params = [a.arg for a in fn.args.args + fn.args.kwonlyargs if a.arg not in ('self', 'cls', bkey.split('.')[0])]
+    if len(params) != 1:
+      continue
+    n += 1
+    table = {}
+    for val in (1, 2, 3, 5, 6):
+      try:
+        pathcond.run_concrete(fn, {bkey: (2, 5), params[0]: val}, tolerant=True)
+        table[val] = False
+      except pathcond.Raised:
+        table[val] = True
+      except pathcond.NoValue as e:
+        raise AnalysisError(f'{qn}: bounds test outside the finite model ({e})')
+    want = {1: True, 2: False, 3: False, 5: False, 6: True}
+    ctx.check(table == want, 'R13', f'{qn}: bounds membership', fn, 'raises exactly outside the closed interval [bounds[0], bounds[1]]',
+              f'with bounds (2, 5) `{qn.rsplit(".", 1)[-1]}` raises for {sorted(k for k, b in table.items() if b)} (expected [1, 6]): '
+              'a value on a bound is refused, or a value outside is accepted', construct='bounds-membership', func=qn)
+  if n < 1:
+    raise AnalysisError('no raising bounds-membership function found in parameter_config (ParameterConfig._assert_bounds on the pinned tree)')
 
 
 def r11_children_emptiness(ctx) -> None:
